@@ -198,7 +198,7 @@ func (x *Exec) loopHeader(fr *Frame, li *loopInfo, st *State, reach string) {
 	for k, cl := range inv {
 		f, err := c.formula(cl.E)
 		if err != nil {
-			x.fatal("%s:%d: loop invariant: %v", cl.File, cl.Line, err)
+			x.dropClause(cl, err)
 			continue
 		}
 		lbl := cl.Label
@@ -286,6 +286,13 @@ func (x *Exec) loopHeader(fr *Frame, li *loopInfo, st *State, reach string) {
 	}
 }
 
+// dropClause: a loop-invariant clause that cannot be translated on the current code (it names a variable that no
+// longer exists) is dropped with a warning; the obligations that needed it then fail on their own.
+func (x *Exec) dropClause(cl *Clause, err error) {
+	x.warn("%s:%d: loop invariant dropped, it cannot be evaluated on the current code: %v", cl.File, cl.Line, err)
+	x.assumed[fmt.Sprintf("DROPPED loop invariant [%s] %s: %v", cl.Label, cl.Text, err)] = true
+}
+
 func (x *Exec) loopBackEdge(fr *Frame, li *loopInfo, from *ssa.BasicBlock, cond string, st *State) {
 	inv, dec := x.loopClauses(fr, li)
 	idx := predIndex(li.header, from)
@@ -295,8 +302,7 @@ func (x *Exec) loopBackEdge(fr *Frame, li *loopInfo, from *ssa.BasicBlock, cond 
 	for k, cl := range inv {
 		f, err := c.formula(cl.E)
 		if err != nil {
-			x.fatal("%s:%d: loop invariant: %v", cl.File, cl.Line, err)
-			continue
+			continue // already reported at the loop entry (dropClause)
 		}
 		lbl := cl.Label
 		if lbl == "" {
@@ -465,19 +471,24 @@ func (e *Engine) verifyFunction(key string) (*FuncResult, error) {
 				pc.witEnv = wc.env
 			}
 			f, err := pc.formula(cl.E)
-			if err != nil {
-				x.fatal("%s:%d: ensures: %v", cl.File, cl.Line, err)
-				continue
-			}
 			lbl := cl.Label
 			if lbl == "" {
 				lbl = fmt.Sprint(k)
+			}
+			if err != nil {
+				// the postcondition cannot be evaluated on the current code (a name it mentions is gone): it is
+				// reported as a failed obligation with the reason, not silently skipped
+				x.oblige(fmt.Sprintf("%s/post/%s@ret%d", key, lbl, ri), "post", r.guard, "false", cl, fmt.Sprintf("%s: ensures %s  [cannot be evaluated on the current code: %v]", x.posText(r.instr.Pos()), cl.Text, err))
+				continue
 			}
 			x.oblige(fmt.Sprintf("%s/post/%s@ret%d", key, lbl, ri), "post", r.guard, f, cl, fmt.Sprintf("%s: ensures %s", x.posText(r.instr.Pos()), cl.Text))
 		}
 		if !con.NoFrame {
 			x.frameObligations(body, r, ri, entry, con, pc)
 		}
+		// vacuity guard: the return must be reachable under the assumptions collected on the way (contradictory
+		// callee contracts, invariants or engine axioms would otherwise make every obligation behind them pass)
+		x.obls = append(x.obls, &Obl{Name: fmt.Sprintf("%s/vacuity/ret%d", key, ri), Kind: "vacuity", Fn: key, Formula: not(r.guard), Prefix: len(x.items), Text: fmt.Sprintf("%s: this return is reachable (expected: sat)", x.posText(r.instr.Pos())), x: x, Blk: x.curBlk})
 	}
 	if len(body.rets) == 0 {
 		x.warn("function has no reachable return")
